@@ -479,6 +479,7 @@ type retainedSlice struct {
 	b    []byte
 	snap []byte
 	op   string
+	seq  int
 }
 
 var (
@@ -494,7 +495,8 @@ func retain(b []byte) {
 	if retainOff || len(b) > 4096 || inArena(b) {
 		return
 	}
-	e := retainedSlice{b: b, snap: append([]byte{}, b...), op: retainOp}
+	retainSeq++
+	e := retainedSlice{b: b, snap: append([]byte{}, b...), op: retainOp, seq: retainSeq}
 	if len(retainRing) < retainSlots {
 		retainRing = append(retainRing, e)
 		return
@@ -509,7 +511,12 @@ type retainedBig struct {
 	v    *big.Int
 	snap string
 	op   string
+	seq  int
 }
+
+// retainSeq numbers everything remembered (slices and integers), so that "what this call returned" can be told
+// from what earlier calls returned
+var retainSeq int
 
 var (
 	retainBigRing []retainedBig
@@ -524,7 +531,8 @@ func retainBig(vs ...*big.Int) {
 		if v == nil {
 			continue
 		}
-		e := retainedBig{v: v, snap: v.Text(16), op: retainOp}
+		retainSeq++
+		e := retainedBig{v: v, snap: v.Text(16), op: retainOp, seq: retainSeq}
 		if len(retainBigRing) < 64 {
 			retainBigRing = append(retainBigRing, e)
 			continue
